@@ -85,6 +85,13 @@ var c01Constructs = []c01Construct{
 		// the sink element itself carries v-for
 		return map[string]string{"page.vuego": strings.Replace(s, "<p", `<p v-for="x in items"`, 1)}, c01Data(v)
 	}},
+	// the sink element carries a v-for whose variables the sink does NOT mention (the sink's expression is invariant over the loop)
+	{"vfor-root-invariant", func(s string, v any) (map[string]string, map[string]any) {
+		return map[string]string{"page.vuego": strings.Replace(s, "<p", `<p v-for="q in rows"`, 1)}, c01Data(v)
+	}},
+	{"vfor-root-invariant-index", func(s string, v any) (map[string]string, map[string]any) {
+		return map[string]string{"page.vuego": `<ul>` + strings.Replace(s, "<p", `<p v-for="(i, q) in items" :data-i="i"`, 1) + `</ul>`}, c01Data(v)
+	}},
 	// the sink element ITSELF is a member of a conditional chain (evaluated by evaluateNodeAsElement, a second copy of the directive sequence)
 	{"vif-root", func(s string, v any) (map[string]string, map[string]any) {
 		return map[string]string{"page.vuego": strings.Replace(s, "<p", `<p v-if="t"`, 1) + `<i v-else>no</i>`}, c01Data(v)
